@@ -78,6 +78,10 @@ class Ranger:
         # refinement by path conditions that compare e with constants
         for c in conds:
             ce, v = c[0], c[1]
+            if e[0] == "len" and ce[0] == "isempty" and ce[1] == e[1] and isinstance(v, int):
+                lo, hi = b if b else (0, 64)
+                b = (0, 0) if v == 1 else (max(lo, 1), hi)
+                continue
             if ce == e and isinstance(v, int) and e[0] != "bin":
                 b = (v, v)          # the expression itself was switched on
                 continue
